@@ -174,12 +174,21 @@ fn set_weights(ctx: &mut Ctx, wt: &mut WeightTables, var: u64, r: &mut Rng) -> R
         }
     };
     let (ll, lh) = (plen(r), plen(r));
-    let pl: Vec<f64> = (0..ll).map(|_| r.below(5) as f64 / 2.0).collect();
-    let ph: Vec<f64> = (0..lh).map(|_| r.below(5) as f64 / 2.0).collect();
+    // one call in five passes two views of ONE coefficient table (same base pointer with different lengths, or
+    // overlapping windows): a C caller is free to do that
+    let shared = r.below(5) == 0;
+    let table: Vec<f64> = (0..(ll.max(lh) + 1)).map(|_| r.below(5) as f64 / 2.0).collect();
+    let off = if shared && r.below(3) == 0 { 1usize } else { 0 };
+    let pl: Vec<f64> = if shared { table[..ll as usize].to_vec() } else { (0..ll).map(|_| r.below(5) as f64 / 2.0).collect() };
+    let ph: Vec<f64> = if shared { table[off..off + lh as usize].to_vec() } else { (0..lh).map(|_| r.below(5) as f64 / 2.0).collect() };
     unsafe {
         wmc_param_f64_set_weight(wt.c_real, var, l, h);
         wmc_param_complex_set_weight(wt.c_complex, var, cl, ch);
-        wmc_param_poly_set_weight(wt.c_poly, var, pl.as_ptr(), pl.len(), ph.as_ptr(), ph.len());
+        if shared {
+            wmc_param_poly_set_weight(wt.c_poly, var, table.as_ptr(), pl.len(), table.as_ptr().add(off), ph.len());
+        } else {
+            wmc_param_poly_set_weight(wt.c_poly, var, pl.as_ptr(), pl.len(), ph.as_ptr(), ph.len());
+        }
     }
     wt.n_real.set_weight(VarLabel::new(var), RealSemiring(l), RealSemiring(h));
     wt.n_complex.set_weight(VarLabel::new(var), cl, ch);
@@ -256,6 +265,9 @@ fn run(plan: &Plan, ctx: &mut Ctx) -> R {
     }
 
     let mut cp: Vec<*mut BP> = Vec::new(); // C-side handles
+    // strings handed out earlier by bdd_to_json / print_bdd (the caller never frees them): they are values, a later call
+    // must not change what an earlier call returned
+    let mut strings: Vec<(*const c_char, String, &'static str)> = Vec::new();
     let mut np: Vec<BP> = Vec::new(); // native twin handles
     let mut model: Vec<TT> = Vec::new();
     let mut nvars = n0;
@@ -424,12 +436,24 @@ fn run(plan: &Plan, ctx: &mut Ctx) -> R {
                     let nn = serde_json::to_string(&BDDSerializer::from_bdd(np[x])).unwrap();
                     ctx.ev(300 + kind as u64, &[x as u64, crate::rng::str_hash(&c)]);
                     ctx.check("C18", "ffi-json", c == nn, || format!("bdd_to_json(h{x}) = {c}, native serialisation = {nn}"))?;
+                    let ptr = bdd_to_json(cp[x]);
+                    for (p0, s0, what) in strings.iter().rev().take(4) {
+                        let now = CStr::from_ptr(*p0).to_string_lossy().into_owned();
+                        ctx.check("C18", "ffi-returned-string-changed-later", now == *s0, || format!("a string returned earlier by {what} read {s0} then and reads {now} after a later bdd_to_json"))?;
+                    }
+                    strings.push((ptr, c, "bdd_to_json"));
                 }
                 F_PRINT => {
                     let c = CStr::from_ptr(print_bdd(cp[x])).to_string_lossy().into_owned();
                     let nn = np[x].print_bdd();
                     ctx.ev(300 + kind as u64, &[x as u64, crate::rng::str_hash(&c)]);
                     ctx.check("C18", "ffi-print", c == nn, || format!("print_bdd(h{x}) = {c}, native = {nn}"))?;
+                    let ptr = print_bdd(cp[x]);
+                    for (p0, s0, what) in strings.iter().rev().take(4) {
+                        let now = CStr::from_ptr(*p0).to_string_lossy().into_owned();
+                        ctx.check("C18", "ffi-returned-string-changed-later", now == *s0, || format!("a string returned earlier by {what} read {s0} then and reads {now} after a later print_bdd"))?;
+                    }
+                    strings.push((ptr, c, "print_bdd"));
                 }
                 F_SET_WEIGHT => {
                     let v = op.a[0].unsigned_abs() as usize % nvars;
